@@ -140,8 +140,7 @@ fn parse_source_square(game: &Game, src: &str, dst: Square) -> Result<Square, Pa
 
     if let Some(moved_piece) = parse_piece(*first_char) {
         let ambiguity_resolution = parse_ambiguity_resolution(rest)?;
-
-        let matching_source_squares: Vec<Square> = piece_moves
+        let matching_source_squares: HashSet<Square> = piece_moves
             .into_iter()
             .filter(|&(piece, mv)| {
                 piece == moved_piece && mv.dst() == dst && ambiguity_resolution.satisfied_by(mv)
@@ -150,19 +149,23 @@ fn parse_source_square(game: &Game, src: &str, dst: Square) -> Result<Square, Pa
             .collect();
 
         assert_eq!(matching_source_squares.len(), 1);
-        return Ok(*matching_source_squares.first().unwrap());
+        return Ok(*matching_source_squares.iter().next().unwrap());
     }
 
+    // Pawn capture: the source is given by its file, and only pawns are written that way.
+    // Promotions produce one move per promotion piece from the same source square.
     let ambiguity_resolution = parse_ambiguity_resolution(&src_chars)?;
 
-    let matching_source_squares: Vec<Square> = piece_moves
+    let matching_source_squares: HashSet<Square> = piece_moves
         .into_iter()
-        .filter(|&(_, mv)| mv.dst() == dst && ambiguity_resolution.satisfied_by(mv))
+        .filter(|&(piece, mv)| {
+            piece == PieceKind::Pawn && mv.dst() == dst && ambiguity_resolution.satisfied_by(mv)
+        })
         .map(|(_, mv)| mv.src())
         .collect();
 
     assert_eq!(matching_source_squares.len(), 1);
-    Ok(*matching_source_squares.first().unwrap())
+    Ok(*matching_source_squares.iter().next().unwrap())
 }
 
 fn parse_destination_square(sq: &str) -> Result<Square, ParseError> {
@@ -205,6 +208,10 @@ fn parse_squares(game: &Game, mv: &str) -> Result<(Square, Square), ParseError> 
 }
 
 pub fn parse_move(game: &Game, mv: &str) -> Result<Move, ParseError> {
+    let mv = mv
+        .trim_end_matches(san::CHECK)
+        .trim_end_matches(san::CHECKMATE);
+
     if mv == san::KINGSIDE_CASTLE {
         return Ok(game.moves().expect_matching(
             squares::king_start(game.player),
@@ -220,10 +227,6 @@ pub fn parse_move(game: &Game, mv: &str) -> Result<Move, ParseError> {
             None,
         ));
     }
-
-    let mv = mv
-        .trim_end_matches(san::CHECK)
-        .trim_end_matches(san::CHECKMATE);
 
     let (mv, promotion) = if mv.contains(san::PROMOTION) {
         let (rest, promotion_piece) = mv
